@@ -14,6 +14,7 @@ import (
 	"go/token"
 	"os"
 	"path/filepath"
+	"reflect"
 	"sort"
 	"strconv"
 	"strings"
@@ -326,7 +327,6 @@ func main() {
 	}
 	tb.WriteString("].\n")
 
-
 	// extFuncTypes (x/exp/schema/validate/ext_funcs.go): the typechecker's signature of every extension function
 	tf := parse("x/exp/schema/validate/ext_funcs.go")
 	type tsig struct {
@@ -420,6 +420,99 @@ func main() {
 	}
 	tb.WriteString("].\n")
 
+	// nodeJSON (internal/json/json.go): the JSON key of every typed field, and the order in which ToNode (json_unmarshal.go) examines them
+	jf := parse("internal/json/json.go")
+	fieldKey := map[string]string{}
+	var fieldOrder []string
+	ast.Inspect(jf, func(n ast.Node) bool {
+		ts, ok := n.(*ast.TypeSpec)
+		if !ok || ts.Name.Name != "nodeJSON" {
+			return true
+		}
+		st, ok := ts.Type.(*ast.StructType)
+		if !ok {
+			fail("nodeJSON is not a struct")
+		}
+		for _, f := range st.Fields.List {
+			if f.Tag == nil || len(f.Names) != 1 {
+				continue
+			}
+			tag, _ := strconv.Unquote(f.Tag.Value)
+			js := reflect.StructTag(tag).Get("json")
+			if js == "" {
+				continue
+			}
+			key := js
+			if i := strings.LastIndex(js, ","); i >= 0 {
+				key = js[:i]
+			}
+			if _, isPtr := f.Type.(*ast.StarExpr); !isPtr {
+				continue // the catch-all map of extension calls is not a typed field
+			}
+			fieldKey[f.Names[0].Name] = key
+			fieldOrder = append(fieldOrder, f.Names[0].Name)
+		}
+		return false
+	})
+	if len(fieldKey) == 0 {
+		fail("nodeJSON fields not found")
+	}
+	uf := parse("internal/json/json_unmarshal.go")
+	var toNodeKeys []string
+	for _, d := range uf.Decls {
+		fd, ok := d.(*ast.FuncDecl)
+		if !ok || fd.Name.Name != "ToNode" || fd.Recv == nil {
+			continue
+		}
+		if id, ok := fd.Recv.List[0].Type.(*ast.Ident); !ok || id.Name != "nodeJSON" {
+			continue
+		}
+		recv := fd.Recv.List[0].Names[0].Name
+		for _, st := range fd.Body.List {
+			sw, ok := st.(*ast.SwitchStmt)
+			if !ok || sw.Tag != nil {
+				continue
+			}
+			for _, c := range sw.Body.List {
+				cc := c.(*ast.CaseClause)
+				if cc.List == nil {
+					continue
+				}
+				if len(cc.List) != 1 {
+					fail("nodeJSON.ToNode: a case with several conditions is outside the translated fragment")
+				}
+				be, ok := cc.List[0].(*ast.BinaryExpr)
+				if !ok || be.Op != token.NEQ {
+					fail("nodeJSON.ToNode: case is not `field != nil`")
+				}
+				sel, ok := be.X.(*ast.SelectorExpr)
+				if !ok {
+					fail("nodeJSON.ToNode: case does not test a field")
+				}
+				if x, ok := sel.X.(*ast.Ident); !ok || x.Name != recv {
+					fail("nodeJSON.ToNode: case does not test a field of the receiver")
+				}
+				if y, ok := be.Y.(*ast.Ident); !ok || y.Name != "nil" {
+					fail("nodeJSON.ToNode: case does not compare with nil")
+				}
+				key, ok := fieldKey[sel.Sel.Name]
+				if !ok {
+					fail("nodeJSON.ToNode: field %s has no JSON key", sel.Sel.Name)
+				}
+				toNodeKeys = append(toNodeKeys, key)
+			}
+		}
+	}
+	if len(toNodeKeys) == 0 {
+		fail("nodeJSON.ToNode switch not found")
+	}
+	var declKeys []string
+	for _, f := range fieldOrder {
+		declKeys = append(declKeys, fieldKey[f])
+	}
+	sort.Strings(declKeys)
+	fmt.Fprintf(&tb, "\n(* internal/json/json.go: the JSON keys of the typed (pointer) fields of nodeJSON, sorted *)\nDefinition node_json_field_keys : list string := %s.\n", coqStrList(declKeys))
+	fmt.Fprintf(&tb, "\n(* internal/json/json_unmarshal.go: nodeJSON.ToNode - the keys of the fields in the order the switch examines them *)\nDefinition node_json_tonode_keys : list string := %s.\n", coqStrList(toNodeKeys))
 
 	// ---- ToEval (convert.go) and fold (fold.go): node type -> evaluator constructor
 	toeval := switchTable(parse("internal/eval/convert.go"), "ToEval")
